@@ -22,11 +22,14 @@ META = {
     "documented scoping rules.  Each program is also re-printed under identifier bijections (ASCII, names that "
     "look like generated-code identifiers or Python keywords, Unicode, and deliberately NFKC-colliding pairs) and "
     "must render identically.",
-    "note": "Bounds: the full alphabet is enumerated to N<=2 (thorough 3), thinner alphabets deeper (N<=4, thorough "
-    "up to 5 on the can-alias subset with three variables); for alphabets closed under permuting the pool only the "
-    "representative whose variables first occur in pool order is run.  quick applies a rotating subset of the "
-    "renaming menu per program, thorough a larger one.  Errors are compared by exception class only.  R-stmt rules "
-    "not stated in the docs are tagged CALIBRATED in vf/gen_stmt.py and listed under assumptions.",
+    "note": "Bounds (statement nodes, nesting <= 3): quick = full alphabet N<=2, tiny N<=4, macro5 N<=5, tiny2 / tiny3 / "
+    "alias(3 variables) N<=3; thorough = full and mid N<=3, core / tiny / tiny2 / tiny3 / alias(3 variables) N<=4, deep1 "
+    "and alias5(3 variables) N<=5, macro5 N<=6 (alphabets: vf/gen_stmt.py alphabet()).  For alphabets closed under "
+    "permuting the pool only the representative whose variables first occur in pool order is run.  One renaming per "
+    "program, rotating through the menu (ordinary and NFKC-colliding alternately; alias profiles one of each).  Errors "
+    "are compared by exception class only.  R-stmt rules not stated in the docs are tagged CALIBRATED in "
+    "vf/gen_stmt.py and listed under assumptions.  Known deviations are labelled by a structural predicate on the "
+    "program AND equality with a variant interpreter; they are still reported as violations.",
     "design_ref": "DESIGN.md §4 C03, §3 R-stmt",
 }
 
@@ -198,105 +201,102 @@ def shard(arg) -> core.Part:
         if n <= 3:
             p.violation(sig, make_detail())
 
-    try:
-        idx = -1
-        for prog in G.programs(nmax, pool, profile, shard=(k, K), min_nodes=nmin):
-            idx += 1
-            pe = G.with_epilogue(prog, pool)
-            ids = G.identifiers(pe)
-            src = G.to_source(pe)
-            datas = G.data_assignments(pool, pe)
-            kinds = sorted(G.kinds(prog))
-            uses_tree = "recfor" in kinds
-            p.count("programs")
-            with core.alarm(20):
-                got, cerr = run_real(jinja2.Environment, src, datas)
-            if got is None:
-                p.evals += 1
-                report("C03/compile-error/" + cerr.split(":")[0], lambda: {
-                    "msg": f"{src!r} does not compile: {cerr}",
-                    "script": script_for(src, {}, "<compiles>")})
+    idx = -1
+    for prog in G.programs(nmax, pool, profile, shard=(k, K), min_nodes=nmin):
+        idx += 1
+        pe = G.with_epilogue(prog, pool)
+        ids = G.identifiers(pe)
+        src = G.to_source(pe)
+        datas = G.data_assignments(pool, pe)
+        kinds = sorted(G.kinds(prog))
+        uses_tree = "recfor" in kinds
+        p.count("programs")
+        with core.alarm(20):
+            got, cerr = run_real(jinja2.Environment, src, datas)
+        if got is None:
+            p.evals += 1
+            report("C03/compile-error/" + cerr.split(":")[0], lambda: {
+                "msg": f"{src!r} does not compile: {cerr}",
+                "script": script_for(src, {}, "<compiles>")})
+            continue
+        # ---- oracle 1: reference interpreter
+        pattern = None
+        for d, g in zip(datas, got):
+            p.evals += 1
+            exp = G.interpret(pe, d)
+            p.sig(("o1", "+".join(kinds), g.cls if isinstance(g, G.Failure) else "ok"))
+            if g == exp:
                 continue
-            # ---- oracle 1: reference interpreter
-            pattern = None
-            for d, g in zip(datas, got):
+            if pattern is None:
+                pattern = (G.late_store_pattern(pe), G.loopctl_else_pattern(pe))
+            sig = "C03/mismatch/" + "+".join(kinds)
+            why = ""
+            if pattern[0] and g == G.interpret(pe, d, "late-store"):
+                sig = "C03/late-store-hides-context"
+                why = (f" [name(s) {pattern[0]} are read in a nested scope before a later unconditional "
+                       "assignment in an enclosing scope]")
+            elif pattern[1] and g == G.interpret(pe, d, "ctl-else"):
+                sig = "C03/loopctl-else-after-break"
+                why = " [for-else ran although iterations took place (break/continue)]"
+            elif pattern[0] and pattern[1] and g == G.interpret(pe, d, ("late-store", "ctl-else")):
+                sig = "C03/late-store-hides-context+loopctl-else-after-break"
+            dd = {kk: v for kk, v in d.items() if v is not False}
+            report(sig, lambda: {
+                "msg": f"{src!r} on {dd}: rendered {g!r}, scoping rules give {exp!r}{why}",
+                "source": src, "data": dd, "got": repr(g), "expected": repr(exp), "profile": profile,
+                "script": script_for(src, d, exp, uses_tree=uses_tree)})
+        p.sample({"source": src, "data": {kk: v for kk, v in datas[-1].items() if v is not False},
+                  "output": repr(got[-1])})
+        # ---- oracle 2: alpha-renaming
+        gen = [e for e in MENU if applicable(e, ids)]
+        col = [e for e in COLLIDE if applicable(e, ids)]
+        chosen = []
+        if gen:
+            n = len(gen) if nren is None else min(nren, len(gen))
+            step = 1 + (idx // len(gen)) % max(1, len(gen) - 1)
+            j = idx % len(gen)
+            for _ in range(n):
+                if gen[j] not in chosen:
+                    chosen.append(gen[j])
+                j = (j + step) % len(gen)
+        if alternate and col and chosen and idx % 2:
+            chosen = []  # odd programs get the colliding renaming instead of the ordinary one
+        if col and not (alternate and chosen):
+            n = len(col) if ncol is None else min(ncol, len(col))
+            for t in range(n):
+                chosen.append(col[(idx + t) % len(col)])
+        kws = None
+        for name, mp in chosen:
+            src2 = G.to_source(pe, mp)
+            with core.alarm(20):
+                got2, cerr = run_real(jinja2.Environment, src2, datas, mp)
+            p.count("renamed_programs")
+            if got2 is None:
+                got2 = [G.Failure(cerr.split(":")[0])] * len(datas)
+            for d, g, g2 in zip(datas, got, got2):
                 p.evals += 1
-                exp = G.interpret(pe, d)
-                p.sig(("o1", "+".join(kinds), g.cls if isinstance(g, G.Failure) else "ok"))
-                if g == exp:
+                if g2 == g:
+                    p.sig(("o2", name, g.cls if isinstance(g, G.Failure) else "ok"))
                     continue
-                if pattern is None:
-                    pattern = (G.late_store_pattern(pe), G.loopctl_else_pattern(pe))
-                sig = "C03/mismatch/" + "+".join(kinds)
-                why = ""
-                if pattern[0] and g == G.interpret(pe, d, "late-store"):
-                    sig = "C03/late-store-hides-context"
-                    why = (f" [name(s) {pattern[0]} are read in a nested scope before a later unconditional "
-                           "assignment in an enclosing scope]")
-                elif pattern[1] and g == G.interpret(pe, d, "ctl-else"):
-                    sig = "C03/loopctl-else-after-break"
-                    why = " [for-else ran although iterations took place (break/continue)]"
-                elif pattern[0] and pattern[1] and g == G.interpret(pe, d, ("late-store", "ctl-else")):
-                    sig = "C03/late-store-hides-context+loopctl-else-after-break"
-                dd = {kk: v for kk, v in d.items() if v is not False}
+                if kws is None:
+                    kws = kwarg_names(pe)
+                pairs = colliding_pairs(mp, ids)
+                odd_kw = [mp.get(x, x) for x in kws if nfkc(mp.get(x, x)) != mp.get(x, x)]
+                d2 = {kk: v for kk, v in G.render_data(d, mp).items() if kk != G.TREE}
+                if odd_kw and isinstance(g2, G.Failure) and g2.cls == "TypeError":
+                    sig = "C03/nfkc-kwarg"
+                    why = f"keyword argument {odd_kw[0]!r} is not NFKC-normal and reaches the macro as {nfkc(odd_kw[0])!r}"
+                elif pairs:
+                    sig = "C03/nfkc-alias"
+                    why = "distinct identifiers {%s,%s} are NFKC-equal and alias" % pairs[0]
+                else:
+                    sig = "C03/alias/" + name
+                    why = "renaming changed the output"
                 report(sig, lambda: {
-                    "msg": f"{src!r} on {dd}: rendered {g!r}, scoping rules give {exp!r}{why}",
-                    "source": src, "data": dd, "got": repr(g), "expected": repr(exp), "profile": profile,
-                    "script": script_for(src, d, exp, uses_tree=uses_tree)})
-            p.sample({"source": src, "data": {kk: v for kk, v in datas[-1].items() if v is not False},
-                      "output": repr(got[-1])})
-            # ---- oracle 2: alpha-renaming
-            gen = [e for e in MENU if applicable(e, ids)]
-            col = [e for e in COLLIDE if applicable(e, ids)]
-            chosen = []
-            if gen:
-                n = len(gen) if nren is None else min(nren, len(gen))
-                step = 1 + (idx // len(gen)) % max(1, len(gen) - 1)
-                j = idx % len(gen)
-                for _ in range(n):
-                    if gen[j] not in chosen:
-                        chosen.append(gen[j])
-                    j = (j + step) % len(gen)
-            if alternate and col and chosen and idx % 2:
-                chosen = []  # odd programs get the colliding renaming instead of the ordinary one
-            if col and not (alternate and chosen):
-                n = len(col) if ncol is None else min(ncol, len(col))
-                for t in range(n):
-                    chosen.append(col[(idx + t) % len(col)])
-            kws = None
-            for name, mp in chosen:
-                src2 = G.to_source(pe, mp)
-                with core.alarm(20):
-                    got2, cerr = run_real(jinja2.Environment, src2, datas, mp)
-                p.count("renamed_programs")
-                if got2 is None:
-                    got2 = [G.Failure(cerr.split(":")[0])] * len(datas)
-                for d, g, g2 in zip(datas, got, got2):
-                    p.evals += 1
-                    if g2 == g:
-                        p.sig(("o2", name, g.cls if isinstance(g, G.Failure) else "ok"))
-                        continue
-                    if kws is None:
-                        kws = kwarg_names(pe)
-                    pairs = colliding_pairs(mp, ids)
-                    odd_kw = [mp.get(x, x) for x in kws if nfkc(mp.get(x, x)) != mp.get(x, x)]
-                    d2 = {kk: v for kk, v in G.render_data(d, mp).items() if kk != G.TREE}
-                    if odd_kw and isinstance(g2, G.Failure) and g2.cls == "TypeError":
-                        sig = "C03/nfkc-kwarg"
-                        why = f"keyword argument {odd_kw[0]!r} is not NFKC-normal and reaches the macro as {nfkc(odd_kw[0])!r}"
-                    elif pairs:
-                        sig = "C03/nfkc-alias"
-                        why = "distinct identifiers {%s,%s} are NFKC-equal and alias" % pairs[0]
-                    else:
-                        sig = "C03/alias/" + name
-                        why = "renaming changed the output"
-                    report(sig, lambda: {
-                        "msg": f"{src2!r} on {d2}: rendered {g2!r}, but {src!r} renders {g!r} ({why})",
-                        "source": src2, "data": d2, "got": repr(g2), "expected": repr(g), "original": src,
-                        "renaming": name, "profile": profile,
-                        "script": script_for(src2, d2, g, src0=src, uses_tree=uses_tree)})
-    finally:
-        pass
+                    "msg": f"{src2!r} on {d2}: rendered {g2!r}, but {src!r} renders {g!r} ({why})",
+                    "source": src2, "data": d2, "got": repr(g2), "expected": repr(g), "original": src,
+                    "renaming": name, "profile": profile,
+                    "script": script_for(src2, d2, g, src0=src, uses_tree=uses_tree)})
     return p
 
 
